@@ -44,17 +44,6 @@ COMPS = {2: ["e1", "r1"], 3: ["x", "e1", "r1"], 4: ["x", "e1", "r1", "r2"]}
 
 
 def build(c):
-    """c.go_build + one replace line vlib does not generate: repo_modules() skips directories
-    called testdata, but go.opentelemetry.io/collector/pdata/testdata is a module that
-    service/internal/builders (-> processortest) needs."""
-    hdir = os.path.join(vlib.VERIF, "harness", "collector")
-    vlib.gen_gomod(hdir)
-    gm = os.path.join(hdir, "go.mod")
-    txt = open(gm).read()
-    line = "replace go.opentelemetry.io/collector/pdata/testdata => %s/pdata/testdata" % vlib.REPO
-    if line not in txt:
-        txt = "\n".join(l for l in txt.splitlines() if "collector/pdata/testdata =>" not in l) + "\n" + line + "\n"
-        open(gm, "w").write(txt)
     return c.go_build("collector", pkg="./c20")
 
 
@@ -73,7 +62,8 @@ def project(beh, comps, salt=0):
         if e["k"] == "fatal":
             inj["c"] = e["c"]
         if e["k"] == "shutdown":
-            inj["n"] = 1 + (len(steps) + len(fail) + salt) % 3      # Shutdown() from 1..3 goroutines
+            # Shutdown() from 4..8 goroutines that the driver releases together through a spin barrier
+            inj["n"] = 4 + (len(steps) + len(fail) + salt) % 5
         key = (e["at"], e["v"])
         if steps and steps[-1]["key"] == key:
             steps[-1]["ev"].append(inj)
@@ -269,6 +259,46 @@ def strict(c, results, label, limit):
     return followed, total
 
 
+def burst_class(sc):
+    """where the first Shutdown() burst of a script happens (the only one that can find the channel open)"""
+    for st in sc["steps"]:
+        if any(i["k"] == "shutdown" for i in st["ev"]):
+            a = st["at"].split(":")
+            if a[0] == "pre":
+                return "before Run"
+            if a[0] == "idle":
+                return "Running"
+            if a[0] in ("get", "create", "start"):
+                return "Starting" if a[1] == "1" else "Starting during a reload"
+            return "Closing"
+    return None
+
+
+def burst_family(pool, per_class, replicas):
+    """Concurrent Shutdown() calls race inside the collector: whether a burst exposes a fault is a matter of
+    chance, so the simplest generated scripts of every class are run many times (replicas differ in the
+    number of callers, 4..8, and in a `rep` field the driver ignores)."""
+    by = {}
+    for sc in pool:
+        k = burst_class(sc)
+        if k:
+            by.setdefault(k, []).append(sc)
+    out = []
+    for k in sorted(by):
+        for base in sorted(by[k], key=weight)[:per_class]:
+            for r in range(replicas):
+                sc = json.loads(json.dumps(base))
+                sc["rep"] = r
+                for st in sc["steps"]:
+                    for i in st["ev"]:
+                        if i["k"] == "shutdown":
+                            i["n"] = 4 + r % 5
+                sc["id"] = hashlib.sha1(json.dumps({x: sc[x] for x in ("comps", "fail", "steps", "rep")},
+                                                   sort_keys=True).encode()).hexdigest()[:12]
+                out.append(sc)
+    return out, sorted(by)
+
+
 def shape(sc, is_counterexample):
     kinds = sorted({i["k"] for st in sc["steps"] for i in st["ev"]})
     anchors = sorted({st["at"].split(":")[0] + (":g2+" if st["at"].count(":") and st["at"].split(":")[1] not in ("1",) else "")
@@ -359,6 +389,7 @@ def run(c):
                 scripts.append(sc)
             if b.get("bad"):
                 counter.add(sc["id"])
+        pool = list(scripts)
         limit = 1500 if q else 20000
         if len(scripts) > limit:
             # stratified sample: round-robin over the "shapes" of the scripts (kinds of events, kinds
@@ -376,6 +407,9 @@ def run(c):
                     if buckets[k] and len(scripts) < limit:
                         scripts.append(buckets[k].pop())
             c.extra["script_shapes"] = len(order)
+        bursts, classes = burst_family(pool, 3, 12 if q else 60)
+        scripts += bursts
+        c.extra["shutdown_burst_scripts"] = dict(scripts=len(bursts), classes=classes)
         c.rng.shuffle(scripts)
         c.extra["scripts"] = len(scripts)
         c.extra["scripts_from_model_counterexamples"] = len([s for s in scripts if s["id"] in counter])
